@@ -82,6 +82,33 @@ def run_keys(c):
         out["oracle"].append("returned keys %s, expected %s" % (sorted(flat), sorted(want_flat)))
     if "model" + sfx in flat and flat["model" + sfx] != [c["N"], c["N"]]:
         out["oracle"].append("model image has shape %s" % flat["model" + sfx])
+    # the returned image is the rendering of the returned parameters plus the returned sky (independent re-rendering:
+    # the renderer called source by source, closed-form sky)
+    try:
+        N = c["N"]
+        if c["fitter"] == "single":
+            P = {k: float(res[k + sfx]) for k in PP[c["types"][0]]}
+            img = np.asarray(f.renderer.render_source(P, c["types"][0]), np.float64)
+        else:
+            img = np.zeros((N, N))
+            for i, T in enumerate(c["types"]):
+                P = {k: float(v) for k, v in res["source_%d" % i].items()}
+                img = img + np.asarray(f.renderer.render_source(P, T), np.float64)
+        rr, cc = np.meshgrid(np.arange(N), np.arange(N), indexing="ij")
+        sky = np.zeros((N, N))
+        if c["sky"] != "none":
+            sky = sky + float(res["sky_back" + sky_sfx])
+        if c["sky"] == "tilted-plane":
+            sky = sky + (cc - N / 2) * float(res["sky_x_sl" + sky_sfx]) + (rr - N / 2) * float(res["sky_y_sl" + sky_sfx])
+        want = img + sky
+        got = np.asarray(res["model" + sfx], np.float64)
+        scale = max(np.abs(want).max(), 1e-30)
+        dev = np.abs(got - want).max() / scale
+        out["model_dev"] = float(dev)
+        if not np.isfinite(dev) or dev > 2e-3:
+            out["oracle"].append("returned model image differs from render(returned parameters) + sky by %.3g of the peak (fitter=%s, sky=%s)" % (dev, c["fitter"], c["sky"]))
+    except KeyError as ex:
+        pass        # missing keys are reported above
     return out
 
 
